@@ -401,3 +401,46 @@ def lit_text(t, v):
     if var[1]:
         return f"{t['name']}::{v[1]}"
     return f"{t['name']}::{v[1]}(" + ", ".join(lit_text(x, y) for x, y in zip(var[2], v[2])) + ")"
+
+
+def decode(t, bits):
+    """inverse of encode (None if the bits are not the encoding of a value)"""
+    k = t["k"]
+    if len(bits) != size_of(t):
+        return None
+    if k == "bool":
+        return bits == "1"
+    if k == "int":
+        sgn, w = INTS[t["t"]]
+        v = int(bits, 2) if bits else 0
+        return v - (1 << w) if sgn and v >= (1 << (w - 1)) else v
+    if k == "array":
+        w = size_of(t["elem"])
+        return [decode(t["elem"], bits[i * w:(i + 1) * w]) for i in range(t["n"])]
+    if k == "tuple":
+        out, i = [], 0
+        for x in t["ts"]:
+            w = size_of(x)
+            out.append(decode(x, bits[i:i + w]))
+            i += w
+        return tuple(out)
+    if k == "struct":
+        out, i = {}, 0
+        for f, x in t["fields"]:
+            w = size_of(x)
+            out[f] = decode(x, bits[i:i + w])
+            i += w
+        return ("struct", out)
+    tag = tag_size(t)
+    idx = int(bits[:tag], 2) if tag else 0
+    if idx >= len(t["variants"]):
+        return None
+    n, unit, ts = t["variants"][idx]
+    if unit:
+        return ("enum", n, None)
+    out, i = [], tag
+    for x in ts:
+        w = size_of(x)
+        out.append(decode(x, bits[i:i + w]))
+        i += w
+    return ("enum", n, out)
